@@ -47,6 +47,12 @@ class CUBO(CallableModel):
         log_w_rescaled = torch.exp(log_w - log_max) ** self.n
         return torch.log(log_w_rescaled.mean()) / self.n + log_max
 
+    def __call__(self, *args, **kwargs) -> torch.Tensor:
+        # stochastic objective: every evaluation request draws new samples
+        self.lp = self._call(*args, **kwargs)
+        self.lp_needs_update = False
+        return self.lp
+
     def handle_parameter_changed(self, variable, index, event):
         pass
 
